@@ -456,7 +456,7 @@ def _alarm(signum, frame):
     raise CaseTimeout()
 
 
-def _worker_init(repo):
+def _worker_init(repo, modname=None):
     try:  # die with the parent: never leave orphaned workers behind
         import ctypes
         ctypes.CDLL("libc.so.6").prctl(1, signal.SIGKILL)
@@ -476,6 +476,16 @@ def _worker_init(repo):
     got = str(Path(fairlearn.__file__).resolve())
     if not got.startswith(repo):
         raise RuntimeError(f"fairlearn imported from {got}, expected under {repo}")
+    if modname:
+        # import the property module (and torch when it needs it) OUTSIDE any per-case alarm:
+        # an import interrupted by a timeout leaves the worker unusable
+        mod = importlib.import_module(modname)
+        if getattr(mod, "NEEDS_TORCH", False) or getattr(mod, "PID", "") in ("C16", "C17", "C19"):
+            try:
+                import torch
+                torch.set_num_threads(1)
+            except Exception:
+                pass
 
 
 def _worker_run(args):
@@ -503,13 +513,13 @@ def _worker_run(args):
 _POOL = None
 
 
-def pool():
+def pool(modname=None, workers=None):
     global _POOL
     if _POOL is None:
         import multiprocessing as mp
         ctx = mp.get_context("spawn")
-        _POOL = ProcessPoolExecutor(max_workers=NPROC, mp_context=ctx, initializer=_worker_init,
-                                    initargs=(str(REPO),))
+        _POOL = ProcessPoolExecutor(max_workers=workers or NPROC, mp_context=ctx, initializer=_worker_init,
+                                    initargs=(str(REPO), modname))
     return _POOL
 
 
@@ -527,7 +537,18 @@ def shutdown_pool():
 def run_impl(modname: str, fname: str, cases: list, case_timeout=120, chunksize=4):
     """Run fn(case) for every case in worker processes importing fairlearn from REPO."""
     args = [(modname, fname, c, case_timeout) for c in cases]
-    return list(pool().map(_worker_run, args, chunksize=chunksize))
+    res = list(pool(modname).map(_worker_run, args, chunksize=chunksize))
+    # a timeout or a crash inside a loaded worker says nothing about the code under test: run those
+    # cases once more, a few at a time, in fresh workers with a much longer limit
+    again = [i for i, (st, _) in enumerate(res) if st in ("timeout", "harness-exc")]
+    if again:
+        shutdown_pool()
+        args2 = [(modname, fname, cases[i], case_timeout * 5) for i in again]
+        res2 = list(pool(modname, workers=min(4, NPROC)).map(_worker_run, args2, chunksize=1))
+        shutdown_pool()
+        for i, r in zip(again, res2):
+            res[i] = r
+    return res
 
 
 def classify_exc(e: BaseException) -> str:
